@@ -229,3 +229,9 @@ Fixpoint in_scope (s : sst) (ops : list aop) (obs : list qset) : bool :=
       end
   | _, _ => true
   end.
+
+(* statistic for the evidence (NOT a known-finding trigger: its number is mapped to no finding, so a
+   specification failure in such a case is still a violation): the history leaves the scope of the
+   two-wrapper statement, judged on the model's own observations *)
+Definition scope_kf (c : case) : N :=
+  if in_scope (s_init (c_init c)) (c_ops c) (model_obs c) then 0%N else 9%N.
